@@ -169,6 +169,29 @@ func main() {
 		r.Count(p+"server_deaths_while_initialized", int64(st.srvDiedInitialized))
 		r.Count(p+"close_after_server_death", int64(st.closeAfterDeath))
 		r.Count(p+"ops_after_server_death_not_judged", int64(st.opsAfterDeath))
+		r.Count(p+"fault_handshakes_failed", int64(st.faultInitFail))
+		r.Count(p+"fault_handshakes_failed_after_the_initialize_answer", int64(st.faultInitFailLate))
+		r.Count(p+"fault_handshakes_reported_ok", int64(st.faultInitOK))
+		r.Count(p+"fault_not_reached", int64(st.faultNotReached))
+		r.Count(p+"ops_refused_after_fault", int64(st.opsRefusedAfterFault))
+		r.Count(p+"getstate_after_fault", int64(st.stateAfterFault))
+		r.Count(p+"initialize_ok_after_fault", int64(st.reinitOKAfterFault))
+		r.Count(p+"initialize_failed_after_fault", int64(st.reinitFailAfterFault))
+		r.Count(p+"ops_ok_after_initialize_after_fault", int64(st.opsOKAfterReinit))
+		cells := make([]string, 0, len(st.cells))
+		for c := range st.cells {
+			cells = append(cells, c)
+			r.SetAdd("fault_cells_"+ck, c)
+		}
+		sort.Strings(cells)
+		r.Sample(map[string]interface{}{"part": "client-fault-cells", "client": ck, "cells_observed_with_fault_applied": cells})
+		for _, fc := range faultCells(ck) {
+			r.Require(st.cells[fmt.Sprintf("at=%s|%s|ok", fc.At, fc.Fault)] || st.cells[fmt.Sprintf("at=%s|%s|failed", fc.At, fc.Fault)],
+				"client %s: the fault %s at step %s was never applied to a handshake", ck, fc.Fault, fc.At)
+		}
+		r.Require(st.faultInitFailLate > 0, "client %s: no handshake failed at a step after the initialize answer", ck)
+		r.Require(st.opsRefusedAfterFault > 0, "client %s: no refused operation after a handshake that failed at an injected fault", ck)
+		r.Require(st.reinitOKAfterFault+st.reinitFailAfterFault > 0, "client %s: no Initialize after a handshake that failed at an injected fault", ck)
 		r.Require(st.closeAfterDeath > 0, "client %s: no Close after the death of the server of an initialized client observed", ck)
 		r.Require(st.histories > 0 && st.initOK > 0, "client %s: no successful handshake observed (%d histories)", ck, st.histories)
 		r.Require(st.opsRefused > 0, "client %s: no refused operation observed", ck)
@@ -197,6 +220,10 @@ func main() {
 			"'server down' cuts the open connections and resets every connection as soon as its request has been read and recorded, without answering (a closed port cannot be re-bound safely on a shared machine, and a refused connection could not be attributed to a request); stdio: the child exits at start or at the initialize request",
 			"an Initialize answered with text that is not JSON can only end by cancellation on the legacy SSE and stdio clients; the recorder cancels it after 250 ms (the expected outcome, an error, does not depend on that bound)",
 			"the Streamable client's background listening-stream GET after a successful handshake is attributed to that handshake (the recorder waits until the server has seen it; should it arrive later it is still not charged to the later step); three quarters of the Streamable histories disable it",
+			"a fault at the initialize step or earlier precludes a successful Initialize (success is refuted); with a fault at a later step (initialized notification, listening stream) either outcome of Initialize is accepted and the reference machine follows the reported outcome; after a failed one every operation must be refused as not initialized with nothing on the wire, GetState must say disconnected, and a further Initialize may succeed or fail but must not be refused as 'already initialized'",
+			"a fault counts as exercised only when the scripted peer / the request hook actually applied it (fired > 0); every (client kind, step, fault kind) cell must have been applied at least once or the run fails",
+			"client-side faults (hook error, cancellation between two steps) are injected through WithHTTPBeforeRequest, installed only on the histories that contain such a fault; the stdio client's notification write takes no context, so cancellation between steps has no stdio cell",
+			"stdio 'answer-then-exit': whether the initialized line is still written is a race, both outcomes are accepted; when Initialize reports success the situation is judged like a server death after the handshake",
 			"operations after a successful handshake are not required to succeed (counted only); refusing them as not-initialized is refuted",
 			"interleavings of the concurrent-registration scenario are sampled, not enumerated",
 			"'registered at that time' = the name sets after replaying RegisterTool/UnregisterTools/RegisterPrompt/RegisterResource(s)/RegisterResourceTemplate in program order (all calls return before the handshake is sent); prompts and resources cannot be removed through the public API, tools can",
